@@ -164,7 +164,13 @@ pub fn exec(s: &Script, st: &mut Stats) -> Result<RunInfo, Violation> {
                     out = vec![0x5Au8; out_len];
                 }
                 let mid = inb.len() / 2;
-                let parts: Vec<&[u8]> = if flags & 2 != 0 { vec![&inb[..mid], &inb[mid..]] } else { vec![inb] };
+                let parts: Vec<&[u8]> = if flags & 8 != 0 && flags & 16 != 0 {
+                    Vec::new() // an iterator that yields nothing
+                } else if flags & 2 != 0 {
+                    vec![&inb[..mid], &inb[mid..]]
+                } else {
+                    vec![inb]
+                };
                 let res = miniz_oxide::inflate::decompress_slice_iter_to_slice(&mut out, parts.into_iter(), flags & 1 != 0, flags & 64 != 0);
                 match res {
                     Ok(nw) => {
